@@ -356,8 +356,9 @@ def fields_shard(acc):
                     acc.n["traces"] += 1
     # the jump-table comment
     tmp = env.scratch_dir("c13")
-    for L in (0, 1, 254, 255, 256, 257):
-        for text_kind, mk in (("ascii", lambda L: "q" * L), ("latin", lambda L: ("\xe9€" * L)[:L]), ("foreign", lambda L: ("q" * L)[:-1] + "Ā" if L else "")):
+    for via, L in [(v, L) for v in ("add", "replace") for L in (0, 1, 254, 255, 256, 257)]:
+        for text_kind, mk in (("ascii", lambda L: "q" * L), ("latin", lambda L: ("\xe9€" * L)[:L]), ("foreign", lambda L: ("q" * L)[:-1] + "Ā" if L else ""),
+                              ("blanks", lambda L: (" " * L) if L < 3 else " " + "q" * (L - 3) + "\t ")):
             s = mk(L)
             if text_kind == "foreign" and L == 0:
                 continue
@@ -368,15 +369,19 @@ def fields_shard(acc):
             if os.path.exists(path):
                 os.unlink(path)
             storable = R.cp_encode(s) is not None and len(R.cp_encode(s)) < 256
-            wit = {"kind": "comment", "s": [ord(c) for c in s]}
+            wit = {"kind": "comment", "s": [ord(c) for c in s], "via": via}
             err = None
             try:
                 with n.tdf.Tdf.new(path).allow_write() as f:
-                    f.add_block(specs.build(gen.events([gen.mk_event("e", 1, 2)])), s)
+                    if via == "add":
+                        f.add_block(specs.build(gen.events([gen.mk_event("e", 1, 2)])), s)
+                    else:  # the field already holds another text
+                        f.add_block(specs.build(gen.events([gen.mk_event("e", 1, 2)])), "the comment that was there before")
+                        f.replace_block(specs.build(gen.events([gen.mk_event("e", 1, 2)])), s)
             except Exception as e:  # noqa: BLE001
                 err = e
             acc.n["transitions"] += 1
-            desc = f"entry comment <- {len(s)} chars ({text_kind})"
+            desc = f"entry comment <- {len(s)} chars ({text_kind}) through {via}_block"
             if not storable:
                 if err is None:
                     acc.violation("unstorable-accepted", f"{PROP}:field:unstorable-accepted:comment", wit, desc)
